@@ -23,6 +23,7 @@ namespace sim
          W.in_library = false;
          out.have_tree = true;
          out.tree_null = !t;
+         out.tree_lazy = !std::is_same_v< SET_IN, sim_mem< pegtl::tracking_mode::eager > >;
          if( t ) {
             struct Walk
             {
@@ -34,14 +35,32 @@ namespace sim
                   tn.depth = depth;
                   tn.nchildren = static_cast< std::uint32_t >( n.children.size() );
                   if( !n.type.empty() ) {
-                     tn.b = static_cast< std::uint32_t >( n.m_begin.byte );
-                     tn.bl = static_cast< std::uint32_t >( n.m_begin.line );
-                     tn.bc = static_cast< std::uint32_t >( n.m_begin.column );
+                     // the span by the node's data pointers (every tracking mode); byte / line / column of the
+                     // iterators only where the input tracks them eagerly
+                     constexpr bool eager = std::is_same_v< SET_IN, sim_mem< pegtl::tracking_mode::eager > >;
+                     tn.b = static_cast< std::uint32_t >( n.m_begin.data - W.arena );
+                     if constexpr( eager ) {
+                        if( n.m_begin.byte != tn.b ) {
+                           tn.b = NOPOS - 1;  // iterator byte and data pointer disagree
+                        }
+                        tn.bl = static_cast< std::uint32_t >( n.m_begin.line );
+                        tn.bc = static_cast< std::uint32_t >( n.m_begin.column );
+                     }
                      tn.has_content = n.has_content();
                      if( tn.has_content ) {
-                        tn.e = static_cast< std::uint32_t >( n.m_end.byte );
-                        tn.el = static_cast< std::uint32_t >( n.m_end.line );
-                        tn.ec = static_cast< std::uint32_t >( n.m_end.column );
+                        tn.e = static_cast< std::uint32_t >( n.m_end.data - W.arena );
+                        if constexpr( eager ) {
+                           if( n.m_end.byte != tn.e ) {
+                              tn.e = NOPOS - 1;
+                           }
+                           tn.el = static_cast< std::uint32_t >( n.m_end.line );
+                           tn.ec = static_cast< std::uint32_t >( n.m_end.column );
+                        }
+                        // the content accessors must hand out exactly the matched bytes
+                        if( tn.b <= tn.e && tn.e <= W.xlen ) {
+                           const std::string_view want( W.arena + tn.b, tn.e - tn.b );
+                           tn.content_ok = ( n.string_view() == want ) && ( n.string() == want );
+                        }
                      }
                   }
                   v.push_back( tn );
